@@ -394,8 +394,8 @@ TABLE = {
     ("collections", "deque"): B.bi_deque,
 }
 
-from . import ext_listing
-TABLE.update(ext_listing.TABLE)          # abstract directory listing (snapshot discovery, C06)
+from . import ext_listing   # abstract directory listing (snapshot discovery, C06): used only by contracts whose ghost
+                            # state declares `fs_listing` (see external_member)
 
 TYPING = {"Any", "Dict", "List", "Tuple", "Optional", "Callable", "Iterable", "Iterator", "Generic", "TypeVar",
           "Deque", "Hashable", "Protocol", "Literal", "TypedDict", "Union", "Set", "Sequence", "Mapping",
@@ -410,6 +410,9 @@ def _uses_fsmodel(ver):
 
 
 def external_member(ver, modname, attr):
+    cur = getattr(ver, "cur", None)
+    if cur is not None and "fs_listing" in getattr(cur, "ghost", {}) and (modname or "", attr) in ext_listing.TABLE:
+        return VFunc("builtin", "%s.%s" % (modname, attr), impl=ext_listing.TABLE[(modname or "", attr)])
     key0 = (modname.split(".")[0] if modname else "", attr)
     from . import fsmodel
     if _uses_fsmodel(ver):
